@@ -8,6 +8,8 @@ import Driver.Common
                  O f=[items] fe=<term|ub|hang|fuel> b=[items] be=<…> len=<n|-> get=[values|!] gx=[get(-1) get(-len) get(-len-1) get(len)]
                  or   O construct=<Exception>
              `S <n> <a> <b> <c>`  Slice_Arg / slice_stack only: prints  O range=<start>,<stop>,<step> len=<Range_Len>
+             `G <i> <k> <expr>`   foreach whose body calls get(obj, k) right after item number i (from 0):  O g=[items] ge=<end>
+             `Z <k> <expr>`       zip(x, …, x) with the ONE object x = <expr> k times (k ≥ 1): as W, without get
    expr ::= (array v*) | (list v*) | (tuple id*) | (table s*) with s = `.` | key | (tree S) with S = `.` | (S k S) | (rtree k*)
           | (range a*) | (slice E a*) | (reverse E) | (zip E*) | (enum E) | (filter E m r) | (map E a b)       a = int | `_`
           | (mut list (v*) sop*) | (mut array (v*) sop*) | (mut table (k*) kop*) | (mut tree (k*) kop*)
@@ -156,23 +158,39 @@ def excOf : String → String
   | "mut-undef" => "Undefined"
   | _ => "FormatError"
 
-def report (e : Expr) : String :=
-  match denote e with
+def reportI (r : Except String (Iterable Val)) (withGet : Bool := true) : String :=
+  match r with
   | .error m => s!"O construct={excOf m}"
   | .ok I =>
     let (f, fe) := I.forward walkCap
     let (b, be) := I.backward walkCap
     let lenS := match I.len with | some n => toString n | none => "-"
-    let getS := match I.len, I.get with
+    let getS := match I.len, (if withGet then I.get else none) with
       | some n, some g => "[" ++ " ".intercalate ((List.range n).map fun (i : Nat) => match g (Int.ofNat i) with
           | some v => v.show | none => "!") ++ "]"
       | _, _ => "-"
     -- get at and beyond the ends: -1, -len, -len-1, len
-    let gxS := match I.len, I.get with
+    let gxS := match I.len, (if withGet then I.get else none) with
       | some n, some g => "[" ++ " ".intercalate ([(-1 : Int), -(n : Int), -(n : Int) - 1, (n : Int)].map fun k => match g k with
           | some v => v.show | none => "!") ++ "]"
       | _, _ => "-"
     s!"O f={showItems f fe} fe={fe.show} b={showItems b be} be={be.show} len={lenS} get={getS} gx={gxS}"
+
+def report (e : Expr) : String := reportI (denote e)
+
+/-- `G i k e`: foreach over `e` whose body calls `get(obj, k)` right after item number `i` -/
+def reportG (i : Nat) (k : Int) (e : Expr) : String :=
+  match denote e with
+  | .error m => s!"O construct={excOf m}"
+  | .ok I =>
+    let (g, ge) := I.forwardWith (fun j => if j = i then some k else none) walkCap
+    s!"O g={showItems g ge} ge={ge.show}"
+
+/-- `Z k e`: the one object `e`, `k` times in a Zip -/
+def reportZ (k : Nat) (e : Expr) : String :=
+  match denote e with
+  | .error m => s!"O construct={excOf m}"
+  | .ok I => reportI (.ok (embI (zipSameI I k) Val.tup)) false
 
 
 def outStr (os : List MOut) : String := ":" ++ String.join (os.map MOut.char)
@@ -223,6 +241,20 @@ def main (args : List String) : IO Unit := do
     if l.startsWith "W " || l.startsWith "V " then
       match IterDrv.parseExpr (IterDrv.tokenize (l.drop 2).toString) with
       | some (e, []) => IO.println (IterDrv.report e)
+      | _ => IO.println "O bad-op"
+    else if l.startsWith "G " then
+      match IterDrv.tokenize (l.drop 2).toString with
+      | i :: k :: rest =>
+        match i.toNat?, k.toInt?, IterDrv.parseExpr rest with
+        | some i, some k, some (e, []) => IO.println (IterDrv.reportG i k e)
+        | _, _, _ => IO.println "O bad-op"
+      | _ => IO.println "O bad-op"
+    else if l.startsWith "Z " then
+      match IterDrv.tokenize (l.drop 2).toString with
+      | k :: rest =>
+        match k.toNat?, IterDrv.parseExpr rest with
+        | some k, some (e, []) => if k = 0 ∨ k > 6 then IO.println "O bad-op" else IO.println (IterDrv.reportZ k e)
+        | _, _ => IO.println "O bad-op"
       | _ => IO.println "O bad-op"
     else if l.startsWith "L " then
       match IterDrv.parseExpr (IterDrv.tokenize (l.drop 2).toString) with
